@@ -321,6 +321,11 @@ class Pragma(Instruction):
         super().__init__()
         self._program_version = version
 
+    @property
+    def cost(self) -> int:
+        # the version directive is not an opcode: it costs nothing
+        return 0
+
     def __str__(self) -> str:
         return f"#pragma version {self._program_version}"
 
@@ -1856,6 +1861,11 @@ class BNZ(InstructionWithLabel):
 
 class Label(InstructionWithLabel):
     """represents a simple label indicating start of the section or possible jump target"""
+
+    @property
+    def cost(self) -> int:
+        # a label is not an opcode: it costs nothing
+        return 0
 
     def __str__(self) -> str:
         return f"{self._label}:"
